@@ -39,7 +39,15 @@ func (p propConc) Runs(tier string) int {
 	}
 	return p.runs[0]
 }
-func (p propConc) Gen(r *simrt.Rand, idx int, tier string) any { return p.gen(r, idx, tier) }
+func (p propConc) Gen(r *simrt.Rand, idx int, tier string) any {
+	c := p.gen(r, idx, tier)
+	if idx%5 == 2 && simGrpcAvailable() {
+		// the same program through the external client: the requests of the concurrent clients meet
+		// in the delivery service, the interceptors and the stream reader/writer on the server side
+		c.Client = "simgrpc"
+	}
+	return c
+}
 func (p propConc) Decode(b json.RawMessage) (any, error) {
 	var c ConcCase
 	err := json.Unmarshal(b, &c)
@@ -95,7 +103,7 @@ func genC06(r *simrt.Rand, idx int, tier string) ConcCase {
 	c.Keys = genKeys(r, 2, 3)
 	id := uint64(0)
 	for _, k := range c.Keys {
-		if r.Intn(5) > 0 {
+		if r.Intn(5) > 0 && idx%11 != 5 { // one program in eleven starts on a database that has never published anything
 			id++
 			c.Init = append(c.Init, Op{K: "set", Key: k, ID: id, Size: smallSize(r)})
 		}
@@ -104,6 +112,36 @@ func genC06(r *simrt.Rand, idx int, tier string) ConcCase {
 		// overwrite once so that superseded versions exist for the collector
 		id++
 		c.Init = append(c.Init, Op{K: "set", Key: c.Keys[0], ID: id, Size: smallSize(r)})
+	}
+	if idx%13 == 7 {
+		// transactions that end while others make their first write: 1-2 transactions that have
+		// written already only end (commit or rollback) in the concurrent phase; 1-2 transactions
+		// that have not written yet write, read their own write back, commit, and read again
+		nend := 1 + r.Intn(2)
+		for t := 1; t <= nend; t++ {
+			id++
+			c.Init = append(c.Init, Op{K: "begin", Tx: t, Level: r.Intn(2)}, Op{K: "set", Tx: t, Key: c.Keys[r.Intn(len(c.Keys))], ID: id, Size: 9 + r.Intn(40)})
+		}
+		nnew := 1 + r.Intn(2)
+		for t := nend + 1; t <= nend+nnew; t++ {
+			c.Init = append(c.Init, Op{K: "begin", Tx: t, Level: r.Intn(2)})
+		}
+		for t := 1; t <= nend; t++ {
+			k := "commit"
+			if r.Intn(2) == 0 {
+				k = "rollback"
+			}
+			c.Clients = append(c.Clients, []Op{{K: "yield", N: r.Intn(10)}, {K: k, Tx: t}})
+		}
+		for t := nend + 1; t <= nend+nnew; t++ {
+			key := c.Keys[r.Intn(len(c.Keys))]
+			id++
+			c.Clients = append(c.Clients, []Op{{K: "yield", N: r.Intn(10)}, {K: "set", Tx: t, Key: key, ID: id, Size: 9 + r.Intn(40)},
+				{K: "get", Tx: t, Key: key}, {K: "commit", Tx: t}, {K: "get", Key: key}})
+		}
+		c.Sched = genSched(r, 120)
+		c.Sched.MaxSteps = 600_000
+		return c
 	}
 	if idx%6 == 5 {
 		// three kinds of actor on one key: a longer-lived RU/RC transaction that writes the key and
